@@ -369,7 +369,10 @@ func buildAndVerify(vc vcase) VObs {
 		obs.Verdict = "success"
 	} else {
 		obs.Verdict = "fail"
-		obs.ErrText = verr.Error()
+		var ep bool
+		if obs.ErrText, ep = errText(verr); ep {
+			obs.Panic = true
+		}
 	}
 	if outcome == nil {
 		obs.Out = "nil"
